@@ -692,12 +692,56 @@ def rule_setup(repo, rep):
                   'adjusted bounds %s not recognised' % txt)
 
 
+def rule_every_constraint_projected(repo, rep):
+  R = 'R-FLOW:itml-every-constraint-projected'
+  rep.rule(R, 'each cycle of ITML projects onto every pair constraint: the '
+           'two projection loops (those that update the matrix in place) '
+           'contain no continue / break / early return, so no constraint is '
+           'skipped on a data-dependent condition (a skipped violated '
+           'constraint keeps a zero multiplier and the fixed point is not '
+           'the optimum)')
+  f = astutil.inline_helpers(repo, repo.get_func('itml._BaseITML._fit'))
+  An = None
+  stores = [n for n in ast.walk(f.node) if isinstance(n, ast.Assign) and
+            ast.unparse(n.targets[0]) == 'self.components_']
+  if stores and isinstance(stores[-1].value, ast.Call) and \
+          stores[-1].value.args and \
+          isinstance(stores[-1].value.args[0], ast.Name):
+    An = stores[-1].value.args[0].id
+  loops = [n for n in ast.walk(f.node) if isinstance(n, ast.For) and
+           any(isinstance(s_, ast.AugAssign) and
+               ast.unparse(s_.target) == An for s_ in ast.walk(n)) and
+           not any(isinstance(x, ast.For) and x is not n and
+                   any(isinstance(s_, ast.AugAssign) and
+                       ast.unparse(s_.target) == An for s_ in ast.walk(x))
+                   for x in ast.walk(n))]
+  if len(loops) < 2:
+    rep.unknown(R, 'itml._BaseITML._fit', site(f), '%d projection loops'
+                % len(loops))
+    return
+  for k, lp in enumerate(sorted(loops, key=lambda n: n.lineno)):
+    key = 'itml._BaseITML._fit:%s' % ('similar' if k == 0 else 'dissimilar')
+    skips = [x for x in ast.walk(lp)
+             if isinstance(x, (ast.Continue, ast.Break, ast.Return))]
+    if skips:
+      rep.refuted(R, key, site(f, skips[0]), 'the loop leaves a constraint '
+                  'unprojected under %s' % (
+                      astutil.path_condition(lp, skips[0]) or 'a condition'))
+    else:
+      rep.derived(R, key, site(f, lp))
+
+
 def check(repo, rep, tier):
   rule_dual_nonneg(repo, rep)
   rule_rank_one(repo, rep)
   rule_update_formulas(repo, rep)
   rule_bounds(repo, rep)
   rule_setup(repo, rep)
+  rule_every_constraint_projected(repo, rep)
+  # bounds / prior given as integer arrays hold the same numbers
+  from . import c06
+  fl = len(rep.floors)
+  c06.rule_int_safe(repo, rep, only=('ITML', 'ITML_Supervised'))
   # strictly PD prior required at the call site (shared with C20)
   R = 'R-TABLE:strict-pd-call-sites'
   before = len(rep.obs)
